@@ -317,7 +317,22 @@ where
                             }
                         }
                     }
-                    _ => {}
+                    BoolSym::And | BoolSym::Or => {
+                        // NOTE: Both sides must be expressions that the solver can evaluate on
+                        // their own, a constant or a cast is only valid inside a comparison
+                        if !left.is_solvable() {
+                            return Err(crate::error::parse_led_preceding(format!(
+                                "encountered - '{:?}'",
+                                t
+                            )));
+                        }
+                        if !right.is_solvable() {
+                            return Err(crate::error::parse_led_following(format!(
+                                "encountered - '{:?}'",
+                                t
+                            )));
+                        }
+                    }
                 }
                 Ok(Expression::BooleanExpression(
                     Box::new(left),
